@@ -492,3 +492,13 @@ mod validate_integrity_tests {
         assert!(error == IntegrityError::Discarded);
     }
 }
+
+#[cfg(feature = "verif-hooks")]
+impl TransportIntegrity {
+    /// Transactions remembered as having failed authentication (verification hook, read-only)
+    pub fn verif_violated(&self) -> Vec<TransactionId> {
+        let mut v: Vec<TransactionId> = self.transactions.iter().copied().collect();
+        v.sort();
+        v
+    }
+}
